@@ -399,7 +399,9 @@ class Ctx:
             "coverage": cov, "assumptions": self.assumptions_text(), "wall_s": round(wall, 2),
             "violations": len(self.violations),
         }
-        (EVID / f"{self.pid}.json").write_text(json.dumps(ev, indent=1, default=str))
+        # a --replay run re-checks one stored input: it must not replace the evidence of a full run
+        evname = f"{self.pid}.replay.json" if self.replay else f"{self.pid}.json"
+        (EVID / evname).write_text(json.dumps(ev, indent=1, default=str))
         self.log(f"done: obligations {self.discharged}/{self.obligations}, evaluations {cov['evaluations']}, "
                  f"distinct_nontrivial {cov['distinct_nontrivial']}, violations {len(self.violations)}, "
                  f"known {len(self.known_hits)}")
